@@ -25,6 +25,7 @@ type Client struct {
 	C         client.Client
 	Monitored map[string][]string // table -> monitored columns
 	Ctx       *abs.Ctx
+	Handlers  []*Handler
 }
 
 // NewClient connects a real client to the endpoint (unix socket path).
